@@ -44,6 +44,7 @@ PROPS = {
         "assumptions": COMMON_ASSUMPTIONS,
     },
     "C18": {
+        "lean_modules": ["Perp.Props.C18", "Perp.Props.C18F"],
         "runs": lambda tier, seed: [vamm_run(tier, seed), feed_run(tier, seed)],
         "rule": VAMM_RULE + " || price feed unit histories on the real margined_pricefeed: append / append-multiple by owner and strangers with non-decreasing "
                 "timestamps (plus a malformed share: future / out-of-order), GetPrice / GetPreviousPrice{0..7} / GetTwapPrice over intervals 0..1e7, two keys",
